@@ -3,6 +3,7 @@ code -- kernel::OP<..>(.., requires_arch<X>), operators / members, public API xs
 Postconditions are taken from the property statements; specs live in spec/spec.h."""
 from .common import TYPES, INT_TYPES, FLOAT_TYPES, ALL_TYPES, ARCHS, lanes
 from .gen import Unsupported, bind_ret, conj, UW, Arg
+from .sig import PType
 
 ROWS = {}
 
@@ -390,6 +391,23 @@ def _maskred(kind):
 
 for _op in ("any", "all", "none", "count", "mask"):
     row(_op, "M", "S", prop="C03")(_maskred(_op))
+
+
+@row("batch_bool_cast", ("M", "MM"), "M", prop="C03")
+def _bool_cast(ctx):
+    """Boolean batches keep their lanes through batch_bool_cast (equal-width element types)"""
+    dst = None
+    if len(ctx.args) >= 2:
+        dst = ctx.args[1].tid
+    elif ctx.fn.sig.ret:
+        dst = PType(ctx.fn.sig.ret).tid
+    if not dst or TYPES[dst][2] != ctx.w:
+        raise Unsupported("batch_bool_cast between different widths")
+    R = ctx.ret = bind_ret(ctx, "M", tid=dst)
+    a = ctx.args[0]
+    ctx.requires += conj(a.wf())
+    ctx.ensures += conj([R.is_true_iff(i, a.truth(i)) for i in range(ctx.n)])
+    ctx.ensures += conj(R.wf())
 
 
 @row("from_mask", ("MS", "S"), "M", prop="C03")
